@@ -103,6 +103,7 @@ spec fn td_inv(t: TimeDelta) -> bool { 0 <= t.nanos < 1_000_000_000 && -LIM() <=
 CALENDAR = r'''
 spec fn is_leap(y: int) -> bool { y % 4 == 0 && (y % 100 != 0 || y % 400 == 0) }
 spec fn year_len(y: int) -> int { if is_leap(y) { 366 } else { 365 } }
+#[verifier::opaque]
 spec fn days_before_year(y: int) -> int { let p = y - 1; 365 * p + p / 4 - p / 100 + p / 400 }
 spec fn day_number(y: int, o: int) -> int { days_before_year(y) + o }
 spec fn MIN_Y() -> int { -262143 }
@@ -124,7 +125,7 @@ spec fn weekday_of(n: int) -> int { (n - 1) % 7 }
 proof fn dn_range_consts()
     ensures DN_MIN() == day_number(MIN_Y(), 1), DN_MAX() == day_number(MAX_Y(), 365), !is_leap(MAX_Y()),
             day_number(1970, 1) == UNIX_DAY(), weekday_of(UNIX_DAY()) == 3
-{}
+{ reveal(days_before_year); }
 
 // cycle form used by the code
 spec fn leaps_before(ym: int) -> int { (ym + 3) / 4 - (ym + 99) / 100 + (ym + 399) / 400 }
@@ -138,7 +139,7 @@ proof fn lb_step(ym: int)
 
 proof fn dby_step(y: int)
     ensures days_before_year(y + 1) == days_before_year(y) + year_len(y)
-{}
+{ reveal(days_before_year); }
 
 proof fn dby_mono(a: int, b: int)
     requires a <= b
@@ -172,6 +173,7 @@ proof fn dn_cycle(y: int, o: int)
     ensures day_number(y, o) == 146097 * (y / 400) + cyc(y % 400, o) - 365,
             is_leap(y) == is_leap(y % 400)
 {
+    reveal(days_before_year);
     let q = y / 400; let ym = y % 400;
     assert(y == 400 * q + ym);
 }
@@ -378,6 +380,6 @@ def stubify(text):
 
 
 # calendar lemmas as axioms for units other than `date` (which proves them); RUST_DIV lemmas likewise (proved in `timedelta`)
-CALENDAR_AX = stubify(CALENDAR).replace('spec fn days_before_year', '#[verifier::opaque]\nspec fn days_before_year').replace('spec fn leaps_before', '#[verifier::opaque]\nspec fn leaps_before')
+CALENDAR_AX = stubify(CALENDAR).replace('spec fn leaps_before', '#[verifier::opaque]\nspec fn leaps_before')
 RUST_DIV_AX = stubify(RUST_DIV)
 DATE_VIEW_AX = stubify(DATE_VIEW)
